@@ -90,7 +90,7 @@ def cbmc_cmd(h, cfile, cover=False):
         return cmd
     cmd += ['--unwinding-assertions', '--trace']
     if h.nochecks: cmd += ['--no-standard-checks']
-    else: cmd += STD_CHECKS
+    else: cmd += [c for c in STD_CHECKS if c not in getattr(h, 'drop_checks', ())]   # h.drop_checks: optional attribute set by a property module
     cmd += h.flags
     if h.backend == 'kissat': cmd += ['--external-sat-solver', 'kissat']
     elif h.backend == 'cadical': cmd += ['--sat-solver', 'cadical']
